@@ -82,6 +82,9 @@ type Case struct {
 	// snapshot, everything goes quiescent (the workers replay what was parsed),
 	// then the rest arrives — a slow source, deterministically
 	Gate int `json:"gate,omitempty"`
+	// Cut > 0: a first attempt replays the first Cut entries and ends there (died / cancelled / failed); what is
+	// observed is the RESTART: a fresh worker replays the whole snapshot on the target the first attempt left.
+	Cut int `json:"cut,omitempty"`
 	// Interleave (mode plain): the parser and the replayer alternate — entry n+1
 	// is parsed only after entry n was replayed (a legal schedule of the two
 	// goroutines of sendRdb; the default harness order parses everything first)
@@ -343,6 +346,7 @@ type Run struct {
 	ErrText string
 	Before  map[DK]*vfdoubles.Val
 	After   map[DK]*vfdoubles.Val
+	Orig    map[DK]*vfdoubles.Val // Cut > 0: the target before the FIRST attempt (Before = what the restart finds)
 	LoadErr error
 	// BinKeyChanged: interleaved mode, a later bin arrived with another key than the first one
 	BinKeyChanged string
@@ -457,6 +461,9 @@ func Emit(s *vfutil.Session, idx int, c *Case, r *Run) {
 	}
 	if c.TDB > 0 {
 		rht += fmt.Sprintf(" tdb=%d", c.TDB-1)
+	}
+	if c.Cut > 0 {
+		rht += fmt.Sprintf(" cut=%d", c.Cut)
 	}
 	if len(c.DBMap) > 0 {
 		var ms []string
@@ -1158,6 +1165,73 @@ func ExhaustiveHashTag(mode string) []*Case {
 		}
 	}
 	return out
+}
+
+// ExhaustiveRerun: the restart of an interrupted full sync. Snapshot: a string, a hash in three chunks, a list; the first
+// attempt is cut after EVERY number of entries (also between the chunks of the hash); policy × restore on/off × the hash
+// held by the original target or not.
+func ExhaustiveRerun(mode string) []*Case {
+	var out []*Case
+	for _, pol := range []string{"replace", "ignore", "error"} {
+		for _, restore := range []bool{false, true} {
+			for pm := 0; pm < 2; pm++ {
+				for cut := 1; cut <= 6; cut++ {
+					c := &Case{Mode: mode, Pol: pol, Restore: restore, Thr: 1, MaxBulk: 1 << 29, Ver: "7.0.0", Cut: cut,
+						KVs: []KVSpec{{Key: vfutil.HexS("a"), Type: 0, Str: vfutil.HexS("1"), Exp: 2},
+							{Key: vfutil.HexS("h"), Type: 4, Exp: 2, Items: []string{vfutil.HexS("f1"), vfutil.HexS("v1"), vfutil.HexS("f2"), vfutil.HexS("v2"), vfutil.HexS("f3"), vfutil.HexS("v3")}},
+							{Key: vfutil.HexS("z"), Type: 1, Items: []string{vfutil.HexS("x"), vfutil.HexS("y")}}}}
+					if pm == 1 {
+						c.Pre = []Pre{{Key: vfutil.HexS("h"), Kind: "string", TTL: 60000}}
+					}
+					out = append(out, c)
+				}
+			}
+		}
+	}
+	return out
+}
+
+// CheckRerun: the property on the restart. The leftovers of the first attempt are prior target content like any
+// other: the rerun must treat every key it finds as the policy says (Check, with the target the first attempt left
+// as the starting point). Counted, not judged: a key the ORIGINAL target did not hold and that ends different from
+// the snapshot although the rerun succeeded (ignore keeps what a dead first attempt wrote of a chunked value).
+func CheckRerun(s *vfutil.Session, c *Case, r *Run, orig map[DK]*vfdoubles.Val) {
+	c2 := *c
+	c2.Pre = nil
+	for k, v := range r.Before { // r.Before = the target as the first attempt left it
+		if v != nil {
+			c2.Pre = append(c2.Pre, Pre{DB: k.DB, Key: vfutil.HexS(k.Key), Kind: "restored"})
+		}
+	}
+	sort.Slice(c2.Pre, func(i, j int) bool { return c2.Pre[i].Key < c2.Pre[j].Key })
+	Check(s, &c2, r)
+	s.Count("mon_rerun_" + c.Pol)
+	if r.Final == "ok" {
+		for _, kv := range c.TargetKVs() {
+			k := DK{kv.DB, string(kv.Key)}
+			if orig[k] == nil && r.After[k] != nil && r.Before[k] != nil {
+				full := false
+				for _, via := range []bool{false, true} {
+					if SameVal(ExpectVal(kv, via, BubbleNowMs), r.After[k]) {
+						full = true
+					}
+				}
+				if !full {
+					s.Count("observed_rerun_" + c.Pol + "_ok_with_truncated_value_of_first_attempt")
+				}
+			}
+		}
+	} else if r.Final == "err-exists" && c.Pol == "error" {
+		own := true
+		for k, v := range r.Before {
+			if v != nil && orig[k] != nil {
+				own = false
+			}
+		}
+		if own {
+			s.Count("observed_rerun_error_fails_on_keys_of_first_attempt")
+		}
+	}
 }
 
 // ExhaustiveBig: a list of 120 elements (the expansion is pipelined and flushed every 100 commands) × policy × prior key.
